@@ -892,3 +892,21 @@ pub fn verif_snapshot() -> VerifSnapshot {
     snap.relations.sort_by_key(|r| (r.0.node(), r.0.pid()));
     snap
 }
+
+/// Verification hook: is `actor` registered as a listener of `group` (default scope), and does
+/// the reverse index still hold any relation of `actor`? Returns `(listens, has_relations)`.
+#[cfg(feature = "verif")]
+pub fn verif_monitoring(group: &GroupName, actor: ActorId) -> (bool, bool) {
+    let monitor = get_monitor();
+    let key = ScopeGroupKey {
+        scope: DEFAULT_SCOPE.to_owned(),
+        group: group.to_owned(),
+    };
+    let listens = monitor
+        .map
+        .get(&key)
+        .map(|g| g.listeners.iter().any(|l| l.get_id() == actor))
+        .unwrap_or(false);
+    let has_relations = monitor.actor_relations.contains_key(&actor);
+    (listens, has_relations)
+}
